@@ -243,80 +243,7 @@ def run(ctx):
 
     # ------------------------------------------------------------------ R3
     ctx.rule("R3", "later frames are checked and prepared lazily", "a faulty later frame is written unchecked, or the iterable is consumed eagerly")
-    gens = [g for g in dm.nested.values() if g.is_generator]
-    dmcall = [cs for cs in dm.calls if cs.registry_op == "dump_many"]
-    if len(gens) != 1 or len(dmcall) != 1:
-        ctx.violate("R3", "dump_many: cannot find the single checking generator / format call", dm, dm.node, construct="checking generator")
-    else:
-        g = gens[0]
-        arg1 = dmcall[0].node.args[1] if len(dmcall[0].node.args) > 1 else None
-        if isinstance(arg1, ast.Call) and isinstance(arg1.func, ast.Name) and arg1.func.id == g.name and not arg1.args:
-            ctx.ok("R3", "the format's dump_many receives the checking generator", f"{dm.module.relpath}:{dmcall[0].node.lineno}")
-        else:
-            ctx.violate("R3", "the format's dump_many does not receive the checking generator (frames bypass the checks)", dm, dmcall[0].node)
-        loops = [n for n in g.own_nodes() if isinstance(n, ast.For)]
-        itname = dm.posparams[0]
-        lp = [l for l in loops if isinstance(l.iter, ast.Name) and l.iter.id == itname]
-        if len(lp) == 1 and isinstance(lp[0].target, ast.Name):
-            var = lp[0].target.id
-            body = lp[0].body
-            gcalls = [cs for cs in g.calls]
-            chk_calls = [cs for cs in gcalls if chk in cs.callees and any(cs.node is n for s in body for n in ast.walk(s))]
-            yields = [n for s in body for n in ast.walk(s) if isinstance(n, ast.Yield)]
-            cond = [n for s in body for n in ast.walk(s) if isinstance(n, (ast.Continue, ast.Break, ast.Return))]
-            helper_yield = None
-            if len(yields) == 1 and isinstance(yields[0].value, ast.Call) and not chk_calls and not cond:
-                for cs in gcalls:
-                    if cs.node is yields[0].value and cs.registry_op is None:
-                        for hh in cs.callees:
-                            if hh.module is g.module and hh is not chk:
-                                helper_yield = (cs, hh, _preflight_summary(prog, hh, chk))
-            if helper_yield is not None:
-                cs_h, hh, sm = helper_yield
-                b, e, okb = bind_call(cs_h.node, hh)
-                a = b.get(sm["data_param"]) if sm["data_param"] else None
-                if sm["check"] and sm["prepare"] and sm["returns_data"] and isinstance(a, ast.Name) and a.id == var:
-                    ctx.ok("R3", f"each later frame goes through helper {hh.name} (checks, then prepares on all its paths) and its result is yielded", f"{g.module.relpath}:{lp[0].lineno}")
-                else:
-                    miss = [k for k in ("check", "prepare") if not sm[k]]
-                    ctx.violate("R3", f"later frames are yielded through helper {hh.name}, which does not perform {' and '.join(miss) or 'the pre-flight on the loop variable'} on all its paths", g, lp[0], construct="checking loop")
-                good = None
-            else:
-                good = len(chk_calls) == 1 and len(yields) == 1 and not cond
-            if good:
-                b, e, okb = bind_call(chk_calls[0].node, chk)
-                good = isinstance(b.get(chk.posparams[1]), ast.Name) and b[chk.posparams[1]].id == var
-                ys = yields[0]
-                # the check precedes the yield
-                good = good and chk_calls[0].node.lineno <= ys.lineno and not any(chk_calls[0].node is n for n in ast.walk(ys))
-                yv = ys.value
-                prep = [cs for cs in gcalls if cs.registry_op == "prepare_dump" and any(cs.node is n for n in ast.walk(yv))]
-                hsum = None
-                if isinstance(yv, ast.Call):
-                    for cs in gcalls:
-                        if cs.node is yv and cs.registry_op is None:
-                            for hh in cs.callees:
-                                if hh.module is g.module and hh is not chk:
-                                    hsum = (hh, _preflight_summary(prog, hh, chk))
-                if hsum is not None:
-                    pass
-                elif isinstance(yv, ast.IfExp):
-                    good = good and _is_hasattr(yv.test, "prepare_dump") and len(prep) == 1 and prep[0].node is yv.body and isinstance(yv.orelse, ast.Name) and yv.orelse.id == var
-                    good = good and isinstance(prep[0].node.args[0], ast.Name) and prep[0].node.args[0].id == var
-                else:
-                    good = False
-            if good:
-                ctx.ok("R3", "each later frame: _check_required(frame) then yield prepare_dump(frame) (or the frame)", f"{g.module.relpath}:{lp[0].lineno}")
-            elif good is not None:
-                ctx.violate("R3", "later frames are not (checked, then prepared, then yielded) one by one", g, lp[0], construct="checking loop")
-            # the pre-checked first frame is yielded once before the loop
-            firsty = [n for n in g.own_nodes() if isinstance(n, ast.Yield) and n not in yields]
-            if len(firsty) == 1 and isinstance(firsty[0].value, ast.Name) and firsty[0].lineno < lp[0].lineno:
-                ctx.ok("R3", "the pre-checked first frame is yielded first", f"{g.module.relpath}:{firsty[0].lineno}")
-            else:
-                ctx.violate("R3", "the pre-checked first frame is not yielded exactly once before the others", g, g.node, construct="first frame yield")
-        else:
-            ctx.violate("R3", "the checking generator does not iterate the caller's iterator directly", g, g.node, construct="checking loop iter")
+    check_dump_many_events(ctx, dm, chk)
 
     # ------------------------------------------------------------------ R6
     ctx.rule("R6", "DumpError / PrepareDumpError / WriteInputError carry the file", "an error message without the file name")
@@ -537,3 +464,103 @@ def _is_hasattr(test, name):
         isinstance(test, ast.Call) and isinstance(test.func, ast.Name) and test.func.id == "hasattr"
         and len(test.args) == 2 and isinstance(test.args[1], ast.Constant) and test.args[1].value == name
     )
+
+
+def check_dump_many_events(ctx, dm, chk):
+    """R3 in two parts.  *Order and values* by evaluation: api.dump_many interpreted with a model format module (with and
+    without `prepare_dump`), `_check_required`, `open` and the format's `dump_many` replaced by recorders, on three
+    model frames -- every frame is checked once and (if the format prepares) prepared once, check before prepare, the
+    first frame before the file is opened, the format receives the prepared frames in order together with the caller's
+    keyword arguments.  (The evaluator runs the generator eagerly, so it shows order per frame, not laziness.)
+    *Laziness* by structure: the caller's iterable is only ever advanced (`iter`, `next`, `for`), never materialised,
+    and what the format's dump_many receives is a generator."""
+    from ..accessors import AccessorEval, Raised, Rec, TextSink
+    from ..symarr import NotSymbolic
+
+    prog = ctx.prog
+    for label, has_prepare, allow in (("format with prepare_dump, allow_changes=True", True, True), ("format with prepare_dump, allow_changes=False", True, False), ("format without prepare_dump", False, False)):
+        log = []
+        frames = [Rec(None, tag=f"f{i}") for i in range(3)]
+        prepared = {}
+
+        def prep(a, k, log=log, prepared=prepared):
+            bound = dict(zip(("data", "allow_changes", "filename"), a))
+            bound.update(k)
+            log.append(("prepare", bound["data"].fields["tag"], bound.get("allow_changes"), bound.get("filename")))
+            out = Rec(None, tag=bound["data"].fields["tag"] + "'")
+            prepared[bound["data"].fields["tag"]] = out
+            return out
+
+        def fdm(a, k, log=log):
+            log.append(("dump_many", list(a[1]) if len(a) > 1 else None, dict(k), a[0] if a else None))
+
+        fields = {"dump_many": ("<function>", fdm), "dump_one": ("<function>", lambda a, k: None)}
+        if has_prepare:
+            fields["prepare_dump"] = ("<function>", prep)
+        fm = Rec(None, **fields)
+        sink = TextSink()
+        ev = AccessorEval(prog, None, limit=8000)
+        ev.module = dm.module
+        ev.eager_generators = True
+        ev.stubs = {"iodata.api._select_format_module": lambda a, k: fm, chk.qualname: lambda a, k, log=log: log.append(("check", (a[1] if len(a) > 1 else k.get("data")).fields["tag"]))}
+        ev.ext_stubs = {"builtins.open": lambda a, k, log=log: (log.append(("open", a[0], a[1] if len(a) > 1 else k.get("mode", "r"))), sink)[1]}
+        try:
+            ev.run_free(dm, [list(frames), "OUT"], {"allow_changes": allow, "option": 7})
+        except Raised as exc:
+            ctx.violate("R3", f"api.dump_many ({label}) raises {exc.args[0]} on three well-formed frames", dm, dm.node, construct=f"dump_many events: raises ({label})")
+            return
+        except NotSymbolic as exc:
+            raise AnalysisError(f"api.dump_many is outside the evaluation whitelist: {exc}") from exc
+        names = [e[0] for e in log]
+        bad = None
+        opens = [i for i, e in enumerate(log) if e[0] == "open"]
+        dumps = [e for e in log if e[0] == "dump_many"]
+        if len(opens) != 1 or log[opens[0]][1:] != ("OUT", "w"):
+            bad = f"the output file is opened {[e[1:] for e in log if e[0] == 'open']} (once, for writing, expected)"
+        elif len(dumps) != 1:
+            bad = f"the format's dump_many is called {len(dumps)} times"
+        else:
+            for i, fr in enumerate(frames):
+                tag = fr.fields["tag"]
+                ci = [j for j, e in enumerate(log) if e[0] == "check" and e[1] == tag]
+                pi = [j for j, e in enumerate(log) if e[0] == "prepare" and e[1] == tag]
+                if len(ci) != 1:
+                    bad = f"frame {i} is checked {len(ci)} time(s) for its required attributes"
+                elif has_prepare and (len(pi) != 1 or log[pi[0]][2] is not allow or log[pi[0]][3] != "OUT"):
+                    bad = f"frame {i} is prepared {len(pi)} time(s)" + (f" with allow_changes={log[pi[0]][2]!r}, filename={log[pi[0]][3]!r} (the caller said {allow}, `OUT`)" if pi else "")
+                elif has_prepare and ci[0] > pi[0]:
+                    bad = f"frame {i} is prepared before its required attributes are checked"
+                elif i == 0 and max(ci + pi) > opens[0]:
+                    bad = "the first frame is checked / prepared only after the output file was opened (a frame that cannot be written truncates an existing file)"
+                if bad:
+                    break
+            if not bad:
+                got = dumps[0][1]
+                want = [prepared[fr.fields["tag"]] for fr in frames] if has_prepare else frames
+                if got is None or len(got) != 3 or any(g is not w for g, w in zip(got, want)):
+                    bad = f"the format's dump_many receives {[getattr(g, 'fields', {}).get('tag') for g in (got or [])]}, expected {[w.fields['tag'] for w in want]} (each frame" + (" as its prepare_dump returned it" if has_prepare else " as given") + ", in order)"
+                elif dumps[0][2] != {"option": 7} or dumps[0][3] is not sink:
+                    bad = f"the format's dump_many gets the keyword arguments {dumps[0][2]} / another file object (the caller's `option=7` and the opened file expected)"
+        if bad:
+            ctx.violate("R3", f"api.dump_many, {label}: {bad} (events: {names})", dm, dm.node, construct=f"dump_many events: {bad}"[:150])
+            return
+        ctx.ok("R3", f"api.dump_many, {label}: every frame checked once" + (", then prepared once" if has_prepare else "") + "; the first before the file is opened; the format gets the frames in order with the caller's keyword arguments", dm.where)
+    # laziness (structural): the caller's iterable is advanced, never materialised
+    itname = dm.posparams[0]
+    funcs = [dm] + list(dm.nested.values())
+    for g in funcs:
+        for n in g.own_nodes():
+            if isinstance(n, ast.Call) and isinstance(n.func, ast.Name) and n.func.id in ("list", "tuple", "sorted", "len", "reversed", "set", "frozenset", "sum", "max", "min") and any(isinstance(x, ast.Name) and x.id == itname for a in n.args for x in ast.walk(a)):
+                ctx.violate("R3", f"api.dump_many materialises the caller's iterable with `{src_of(n)[:50]}`: a generator of frames is consumed as a whole before anything is written (and a failing late frame is found before the first is written)", g, n, construct="dump_many materialises the iterable")
+                return
+    dmcall = [cs for cs in dm.calls if cs.registry_op == "dump_many"]
+    gens = {g.name for g in dm.nested.values() if g.is_generator}
+    lazy_arg = False
+    for cs in dmcall:
+        for a in cs.node.args[1:2]:
+            if (isinstance(a, ast.Call) and isinstance(a.func, ast.Name) and a.func.id in gens) or isinstance(a, ast.GeneratorExp):
+                lazy_arg = True
+    if len(dmcall) == 1 and lazy_arg:
+        ctx.ok("R3", "the format's dump_many receives a generator over the caller's iterable (frames are checked and prepared as they are written)", dm.where)
+    else:
+        ctx.violate("R3", "the format's dump_many does not receive a generator: later frames are checked / prepared all at once, or not through the checking code", dm, dm.node, construct="dump_many lazy argument")
